@@ -390,9 +390,6 @@ def gen_c10(ctx: Ctx, n: int):
         cfg = sdl.gen_cfg(ctx.rng, kinds=["map", "map_stateful", "iter_it_state"], allow_shuffle=False)
         if cfg.get("sampler") in ("batch_sampler",):
             cfg["sampler"] = "seq"
-        if ctx.rng.random() < 0.85:
-            # keep most of the search outside the known-finding region (interval > 1 with workers)
-            cfg["interval"] = ctx.rng.choice([1, 1, 0, None])
         items = ([1000 * w + j for w, sz in enumerate(cfg["sizes"]) for j in range(sz)] if sdl.is_iter(cfg) else list(range(cfg["n"])))
         r = ctx.rng.random()
         k = 0 if not items else ctx.rng.choice([1, 1, 2, 3])
